@@ -39,6 +39,34 @@ def strategy(tier):
     return st.one_of(_history_case(tier), _history_case(tier), _history_case(tier), c05_adjoint.cases(tier))
 
 
+def enumerate_cases(tier):
+    """Systematic part: the 'rejected trial' pattern at every cache age. A forward sweep of cache_size + 5 steps (so that the
+    next interval sits deeper in the tree than the cache is long), an interval N, its two halves, f ever shorter intervals
+    at its left end, then N again - for every f in 0..cache_size+1, i.e. for every relative age of N and of its halves in the
+    bounded cache (N still cached / only its halves cached / nothing cached)."""
+    import os
+    import random
+    seed = int(os.environ.get("VERIF_SEED", "1") or 1)
+    idx = 0
+    for cs in (1, 2, 3, 5, 7, 45):
+        fs = range(0, cs + 2) if cs <= 7 else range(cs - 5, cs + 3)
+        for levy in ("none", "space-time", "davie"):
+            for f in fs:
+                idx += 1
+                rnd = random.Random(seed * 3001 + idx)
+                depth = cs + 5
+                h = 0.5 / depth
+                a, b = depth * h, 0.9
+                m = 0.5 * (a + b)
+                ops = [["raw", k * h, (k + 1) * h] for k in range(depth)] + [["raw", a, b], ["raw", a, m], ["raw", m, b]] + \
+                    [["raw", a, a + (m - a) / 2 ** j] for j in range(1, f + 1)] + [["raw", a, b]]
+                cfg = {"wrapper": "interval", "t0": 0.0, "t1": 1.0, "shape": [4, 3] if levy == "davie" else [8],
+                       "levy": levy, "entropy": rnd.randrange(2 ** 31), "dtype": rnd.choice(["float64", "float32"]),
+                       "cache_size": cs, "dt": None, "tol": 0.0, "halfway": False, "user_W": False, "user_H": False,
+                       "grid": 100}
+                yield {"kind": "history", "cfg": cfg, "ops": ops, "perm": rnd.randrange(2 ** 31)}
+
+
 def _eq(x, y):
     if x is None or y is None:
         return x is None and y is None
